@@ -711,7 +711,7 @@ package tchannel
 // The exchange-set callbacks re-evaluate connection/channel/peer state; they
 // never touch exchanges, fragments, frames or read buffers (assumed, T4).
 //@ funcfield messageExchangeSet.onRemoved()
-//@   modifies allbut errAttempts, readableFragment, Frame, messageExchangeSet, messageExchange, typed.ReadBuffer, cs, own, InboundCallResponse, InboundCall, ncancel
+//@   modifies allbut errAttempts, sysErrID, sysErrCode, sysErrMsg, readableFragment, Frame, messageExchangeSet, messageExchange, typed.ReadBuffer, cs, own, InboundCallResponse, InboundCall, ncancel
 //@ funcfield messageExchangeSet.onAdded()
 //@   modifies allbut errAttempts, readableFragment, Frame, messageExchangeSet, messageExchange, typed.ReadBuffer, cs, own, InboundCallResponse, InboundCall, ncancel, Connection
 //@ funcfield messageExchangeSet.onCancel(id uint32)
@@ -750,7 +750,7 @@ package tchannel
 
 //@ func (mexset *messageExchangeSet) removeExchange(msgID uint32)
 //@   requires MexSetOK(mexset)
-//@   modifies allbut errAttempts, own, Frame, InboundCallResponse, InboundCall, readableFragment, ncancel
+//@   modifies allbut errAttempts, sysErrID, sysErrCode, sysErrMsg, own, Frame, InboundCallResponse, InboundCall, readableFragment, ncancel
 //@   property C04 C10
 
 //@ func (mexset *messageExchangeSet) expireExchange(msgID uint32)
@@ -760,7 +760,7 @@ package tchannel
 
 //@ func (mex *messageExchange) shutdown()
 //@   requires MexSetOK(mex.mexset)
-//@   modifies allbut errAttempts, own, Frame, InboundCallResponse, InboundCall, readableFragment, ncancel
+//@   modifies allbut errAttempts, sysErrID, sysErrCode, sysErrMsg, own, Frame, InboundCallResponse, InboundCall, readableFragment, ncancel
 //@   property C04 C10
 
 // A frame is only ever offered to the exchange registered under the frame's own id.
@@ -948,7 +948,7 @@ package tchannel
 //@ functype onDoneFunc()
 //@   modifies all
 //@ funcfield readableFragment.onDone()
-//@   modifies allbut fragmentingReader, readableFragment, cs, nrecv, doneCalls, doneCode, InboundCallResponse, errAttempts
+//@   modifies allbut fragmentingReader, readableFragment, cs, nrecv, doneCalls, doneCode, InboundCallResponse, errAttempts, sysErrID, sysErrCode, sysErrMsg
 
 //@ ghostfield nrecv
 //@ iface fragmentReceiver.recvNextFragment(intial bool) (f *readableFragment, err error)
@@ -963,7 +963,7 @@ package tchannel
 // done: the release callback runs at most once per fragment.
 //@ func (f *readableFragment) done()
 //@   requires f.onDone != nil
-//@   modifies allbut fragmentingReader, cs, nrecv, doneCalls, doneCode, InboundCallResponse, errAttempts
+//@   modifies allbut fragmentingReader, cs, nrecv, doneCalls, doneCode, InboundCallResponse, errAttempts, sysErrID, sysErrCode, sysErrMsg
 //@   ensures f.isDone
 //@   property C12 C01
 
@@ -1199,7 +1199,7 @@ package tchannel
 
 //@ func (c *Connection) SendSystemError(id uint32, span Span, err error) (sendErr error)
 //@   nosafety
-//@   modifies allbut InboundCallResponse, Relayer, relayItems, relayItem, messageExchange, messageExchangeSet, connFailed, connFailSys, lookupHit, nadmit, admitted, nends, ndec, nstopped
+//@   modifies allbut InboundCallResponse, InboundCall, readableFragment, Relayer, relayItems, relayItem, messageExchange, messageExchangeSet, connFailed, connFailSys, lookupHit, nadmit, admitted, nends, ndec, nstopped
 //@   defines errAttempts(c) == old(errAttempts(c)) + 1
 //@   property C07 C20
 
